@@ -427,9 +427,20 @@ def build_tracks(cfg: Config):
         tracks.features["weight"] = Feature(feature_type="edge", value_type="float",
                                             num_values=1, display_name="weight",
                                             required=False, default_value=None)
+        tracks.features["tag"] = Feature(feature_type="node", value_type="str",
+                                         num_values=1, display_name="tag",
+                                         required=False, default_value=None)
+        tracks.features["ok"] = Feature(feature_type="node", value_type="bool",
+                                        num_values=1, display_name="ok",
+                                        required=False, default_value=None)
+        for n in tracks.graph.nodes:
+            if rng.random() < 0.7:
+                tracks.graph.nodes[n]["tag"] = rng.choice(["a", "bb", ""])
+            if rng.random() < 0.7:
+                tracks.graph.nodes[n]["ok"] = rng.random() < 0.5
         for n in tracks.graph.nodes:
             if rng.random() < 0.8:
-                tracks.graph.nodes[n]["score"] = round(rng.random(), 3)
+                tracks.graph.nodes[n]["score"] = rng.choice([0.0, round(rng.random(), 3)])
         for e in tracks.graph.edges:
             if rng.random() < 0.8:
                 tracks.graph.edges[e]["weight"] = round(rng.random(), 3)
